@@ -39,11 +39,10 @@ class SortedMap(MutableMapping[K, T], Generic[K, T]):
         self.values_storage = []
 
         if init_values is not None:
-            if isinstance(init_values, Mapping):
-                self.keys_storage = list(init_values.keys())
-                values = list(init_values.values())
-            else:
-                self.keys_storage, values = zip(*init_values)
+            # dict handles an empty initialiser and repeated keys (the later pair wins, like dict())
+            init_values = dict(init_values)
+            self.keys_storage = list(init_values.keys())
+            values = list(init_values.values())
             # sort keys
             sorted_indices = arg_sort(self.keys_storage)
 
